@@ -414,6 +414,13 @@ func c04(c *Ctx) {
 		}
 	}
 
+	// ---- R2 (shared with C18.R3): a row of In is compared position by position only with an argument list of exactly its length
+	for _, n := range p.namedTypesIn("arg") {
+		if ev := declaredMethod(p, n, "Eval"); ev != nil && ev.Blocks != nil {
+			checkPairwiseArity(p, r, "C04.R2", ev)
+		}
+	}
+
 	// ---- R5 matching never writes through the shared argument slice
 	for _, n := range matcherImpls(p) {
 		mf := declaredMethod(p, n, "Match")
@@ -480,6 +487,86 @@ func c04(c *Ctx) {
 		})
 	}
 	r.Stat("variadic_unwrap_sites", nUnwrap)
+	// the list that was unwrapped never stands in for its own expansion: wherever the unexpanded list U and an expanded
+	// (appended) list are merged, U arrives only on edges where the function is not variadic or U is empty
+	for _, f := range append(append([]*ssa.Function{}, root...), p.FuncsIn("arg")...) {
+		k := NewKeyer(f)
+		unexp := map[ssa.Value]bool{}
+		eachInstr(f, func(i ssa.Instruction) {
+			cl, ok := i.(*ssa.Call)
+			if !ok {
+				return
+			}
+			if cn := calleeName(cl.Common()); cn != "(reflect.Value).Len" && cn != "(reflect.Value).Index" {
+				return
+			}
+			if !underVariadic(p, cl.Block()) {
+				return
+			}
+			var srcs []*ssa.IndexAddr
+			collectIndexSources(cl.Call.Args[0], &srcs, map[ssa.Value]bool{})
+			for _, ia := range srcs {
+				if isValueSlice(ia.X.Type()) {
+					unexp[resolveLocal(ia.X)] = true
+				}
+			}
+		})
+		if len(unexp) == 0 {
+			continue
+		}
+		eachInstr(f, func(i ssa.Instruction) {
+			ph, ok := i.(*ssa.Phi)
+			if !ok || !isValueSlice(ph.Type()) {
+				return
+			}
+			hasExpanded := false
+			for _, e := range ph.Edges {
+				for _, a := range origins(e) {
+					if cl, ok := a.V.(*ssa.Call); ok {
+						if bi, ok := cl.Call.Value.(*ssa.Builtin); ok && bi.Name() == "append" {
+							hasExpanded = true
+						}
+					}
+				}
+			}
+			if !hasExpanded {
+				return
+			}
+			for ei, e := range ph.Edges {
+				u := resolveLocal(e)
+				if !unexp[u] {
+					continue
+				}
+				gs := knownAtEdge(ph.Block().Preds[ei], ph.Block())
+				okEdge := false
+				for _, g := range gs {
+					if g.Pol {
+						continue
+					}
+					// variadic flag known false
+					switch x := g.Cond.(type) {
+					case *ssa.Parameter:
+						if p.variadicCarriers().params[x] {
+							okEdge = true
+						}
+					case *ssa.UnOp:
+						if _, fv, okF := fieldRef(x); okF && fv != nil && p.variadicCarriers().fields[fv] {
+							okEdge = true
+						}
+					}
+				}
+				if !okEdge {
+					m := NewDBM()
+					guardListToDBM(m, k, gs)
+					if m.EntailsLE(Term{"len(" + k.Key(u) + ")", 0}, Term{"", 0}) {
+						okEdge = true
+					}
+				}
+				r.Check(okEdge, "C04.R4", fmt.Sprintf("unexpanded argument list not used as its expansion in %s (way#%d)", shortName(f), ei), p.Pos(posOf(ph)), "the unexpanded list reaches the merge only when not variadic or empty",
+					"for a variadic function with a non-empty argument list, the list whose last element is the packed variadic slice is used in place of its expansion on some path (e.g. when the variadic part is empty): the packed slice is counted as an argument, so conditions stop matching or earlier ones match wrongly")
+			}
+		})
+	}
 }
 
 func isBool(t types.Type) bool {
@@ -869,4 +956,51 @@ func (vs *variadicSet) dump(p *Prog) {
 	for f := range p.Funcs {
 		_ = f
 	}
+}
+
+func (p *Prog) namedTypesIn(rel string) []*types.Named {
+	pk := p.Pkg(rel)
+	if pk == nil {
+		return nil
+	}
+	return namedTypesOf(pk.Types)
+}
+
+// checkPairwiseArity: wherever expression L[i] is evaluated on argument A[i] (same index value, same block), the
+// conditions that dominate the evaluation entail len(L) == len(A): a shorter row must not match on a prefix of the
+// arguments and a longer one must not index past them.
+func checkPairwiseArity(p *Prog, r *Report, rule string, fn *ssa.Function) {
+	eachInstr(fn, func(i ssa.Instruction) {
+		ev, ok := i.(*ssa.Call)
+		if !ok || !ev.Call.IsInvoke() || ev.Call.Method.Name() != "Eval" {
+			return
+		}
+		ld, ok := ev.Call.Value.(*ssa.UnOp)
+		if !ok {
+			return
+		}
+		ia, ok := ld.X.(*ssa.IndexAddr)
+		if !ok {
+			return
+		}
+		var other *ssa.IndexAddr
+		eachInstr(fn, func(j ssa.Instruction) {
+			if ia2, ok := j.(*ssa.IndexAddr); ok && ia2 != ia && ia2.Index == ia.Index && j.Block() == ev.Block() {
+				if isValueSlice(ia2.X.Type()) {
+					other = ia2
+				}
+			}
+		})
+		if other == nil {
+			return
+		}
+		k := NewKeyer(fn)
+		m := NewDBM()
+		guardsToDBM(m, k, ev.Block())
+		lenL := Term{"len(" + k.Key(ia.X) + ")", 0}
+		lenA := Term{"len(" + k.Key(other.X) + ")", 0}
+		eq := m.EntailsLE(lenL, lenA) && m.EntailsLE(lenA, lenL)
+		r.Check(eq, rule, "row arity equals argument count in "+shortName(fn), p.Pos(posOf(ev)), "len(expressions) == len(arguments) dominates the position-wise evaluation",
+			"a group of expressions is evaluated position by position without a dominating test that it has exactly as many expressions as there are arguments: a shorter In-row matches on a prefix of the call's arguments (or a longer one indexes past them)")
+	})
 }
